@@ -92,14 +92,17 @@ PRender(m, st) ==
 RECURSIVE ApplyCodes(_, _)
 ApplyCodes(cur, codes) == IF codes = <<>> THEN cur
                           ELSE ApplyCodes(IF Head(codes) = 0 THEN {} ELSE cur \cup {Head(codes)}, Tail(codes))
-RECURSIVE Fold(_, _)
+\* (written without recursion over the token stream: renderings of several hundred tokens occur)
+Indices(toks, keep(_)) == SelectSeq([i \in 1..Len(toks) |-> i], keep)
+SgrCodesBefore(toks, i) ==     \* the codes of all SGR tokens before position i, in order
+  LET sg == SelectSeq(SubSeq(toks, 1, i - 1), LAMBDA t : t.k = "sgr")
+      RECURSIVE Cat(_)
+      Cat(q) == IF q = <<>> THEN <<>> ELSE Head(q).codes \o Cat(Tail(q))
+  IN Cat(sg)
 Fold(toks, cur) ==
-  IF toks = <<>> THEN <<>>
-  ELSE IF Head(toks).k = "sgr" THEN Fold(Tail(toks), ApplyCodes(cur, Head(toks).codes))
-  ELSE <<[c |-> Head(toks).c, codes |-> cur]>> \o Fold(Tail(toks), cur)
-RECURSIVE FinalCodes(_, _)
-FinalCodes(toks, cur) == IF toks = <<>> THEN cur
-                         ELSE FinalCodes(Tail(toks), IF Head(toks).k = "sgr" THEN ApplyCodes(cur, Head(toks).codes) ELSE cur)
+  LET idx == Indices(toks, LAMBDA i : toks[i].k # "sgr")
+  IN [k \in 1..Len(idx) |-> [c |-> toks[idx[k]].c, codes |-> ApplyCodes(cur, SgrCodesBefore(toks, idx[k]))]]
+FinalCodes(toks, cur) == ApplyCodes(cur, SgrCodesBefore(toks, Len(toks) + 1))
 Strip(toks) == LET cs == SelectSeq(toks, LAMBDA t : t.k # "sgr") IN [k \in 1..Len(cs) |-> cs[k].c]
 Plainly(toks) == \A k \in 1..Len(toks) : toks[k].k = "c"      \* no escape sequence at all
 
@@ -126,11 +129,11 @@ Apply(cs, st) == IF cs = <<>> THEN <<>>
                  ELSE Chars(cs)
 RawOf(g) == CASE g.k = "t" -> <<g.c>> [] g.k = "esc" -> <<BS, "<">> [] OTHER -> <<>>
 \* output.replace("\\<", "<"): a backslash token directly followed by a "<" token disappears
-RECURSIVE Unescape(_)
 Unescape(toks) ==
-  IF Len(toks) < 2 THEN toks
-  ELSE IF toks[1].k = "c" /\ toks[1].c = BS /\ toks[2].k = "c" /\ toks[2].c = "<" THEN <<toks[2]>> \o Unescape(SubSeq(toks, 3, Len(toks)))
-  ELSE <<toks[1]>> \o Unescape(Tail(toks))
+  LET n == Len(toks)
+      dropped(i) == toks[i].k = "c" /\ toks[i].c = BS /\ i < n /\ toks[i + 1].k = "c" /\ toks[i + 1].c = "<"
+      idx == Indices(toks, LAMBDA i : ~dropped(i))
+  IN [k \in 1..Len(idx) |-> toks[idx[k]]]
 
 \* pop(style): cut the stack below the innermost equal style; none: "Incorrectly nested style tag found."
 MatchIdx(st, s) == {k \in DOMAIN st : SameStyle(st[k], s)}
